@@ -284,7 +284,7 @@ func c08Run(w *core.W) {
 	// (4) reference sites (all types registered)
 	for _, r := range c05Roots() {
 		if mine() {
-			c08Case(w, c05Project(r, []string{"@s", "@o", "@p", "@q"}, nil), "references")
+			c08Case(w, c05Project(r, c05All, nil), "references")
 		}
 	}
 	// (5) key shortcuts with additionalProperties
